@@ -422,6 +422,26 @@ impl LoopRange {
     }
 }
 
+/// Verification hooks (only with `--cfg aws_smt_strings_verif`): public access to the crate-private
+/// non-panicking variants used by the regular-expression constructors.
+#[cfg(aws_smt_strings_verif)]
+impl LoopRange {
+    /// [LoopRange::checked_add]
+    pub fn verif_checked_add(&self, other: &LoopRange) -> Option<LoopRange> {
+        self.checked_add(other)
+    }
+
+    /// [LoopRange::checked_mul]
+    pub fn verif_checked_mul(&self, other: &LoopRange) -> Option<LoopRange> {
+        self.checked_mul(other)
+    }
+
+    /// [LoopRange::checked_right_mul_is_exact]
+    pub fn verif_checked_right_mul_is_exact(&self, other: &LoopRange) -> Option<bool> {
+        self.checked_right_mul_is_exact(other)
+    }
+}
+
 #[allow(clippy::uninlined_format_args)]
 #[cfg(test)]
 mod test {
